@@ -773,3 +773,5 @@ def check(run, prog):
     rule_order(run, prog)
     rule_formatters(run, prog)
     rule_prints(run, prog)
+    from .c09_linesplit import rule_line_split
+    rule_line_split(run, prog, "R-8.7")
